@@ -3,11 +3,12 @@
   `Atomman/C03.lean` of `atomman/core/nlist.pyx` + `NeighborList.py` (exact over ℚ).
 
   Helper lemmas: Proofs/C03_Lemmas.lean (insertion, dmag2, storage), Proofs/C03_Geometry.lean (bins, sweep,
-  superbox, ghosts), Proofs/C03_Text.lean (dump/load).
+  superbox, ghosts), Proofs/C03_Text.lean (dump/load), Proofs/C03_Bins.lean (bin table with capacity).
 -/
 import Proofs.C03_Lemmas
 import Proofs.C03_Geometry
 import Proofs.C03_Text
+import Proofs.C03_Bins
 
 set_option linter.unusedSimpArgs false
 set_option linter.unusedVariables false
@@ -290,6 +291,98 @@ def witSys : Sys :=
 def witCut : ℚ := (5740257147792497/2251799813685248 : ℚ)
 example : nlistL witSys witCut = [[1], [0]] := by decide +kernel
 example : nlistSpec witSys witCut 0 = [1] := by decide +kernel
+
+/-! ### the bin table with fixed capacity -/
+
+/-- **bins_refine**: for every growth block that is `Sound` (the trigger fires before a row is full beyond its
+    spare slots, every column in use is copied, the new array is wide enough), the bin read by the sweep from the
+    capacity table `xyzbins` — `xyzbins[b, 1 .. xyzbins[b, 0]]` after filling all real atoms and ghosts in order,
+    with any number of growths — is the list of the entries that fall in `b`, in fill order. -/
+theorem bins_refine (P : BinParams) (s : Nat) (h : P.Sound s) (es : List (Nat × Idx)) (b : Idx) :
+    membersA (fillBins P es) b = members es b := membersA_fillBins P s h es b
+
+/-- **src_bins_sound**: the growth block as it stands in nlist.pyx (`Generated/NlistStorage.lean`: initial
+    `maxatomsperbin`, array widths, trigger, copy loop bound, increment) is `Sound`. -/
+theorem src_bins_sound : ∃ s, srcBinParams.Sound s := srcBinParams_sound
+
+/-- non-vacuity / sharpness: a block that triggers one entry later AND copies one column less is not sound for
+    any `s`, and indeed loses an atom: 3 entries in one bin with `maxatomsperbin = 2`. -/
+def lossyParams : BinParams := ⟨2, (· + 1), fun c m => decide (m < c), (· + 11), (·), (· + 10)⟩
+example : membersA (fillBins lossyParams [(5, (0, 0, 0)), (6, (0, 0, 0)), (7, (0, 0, 0))]) (0, 0, 0) = [5, 0, 7] ∧
+    members [(5, ((0, 0, 0) : Idx)), (6, (0, 0, 0)), (7, (0, 0, 0))] (0, 0, 0) = [5, 6, 7] := by decide
+example : membersA (fillBins srcBinParams ((List.range 95).map fun i => (i, ((1, 2, 3) : Idx)))) (1, 2, 3)
+    = List.range 95 := by decide +kernel
+
+/-- **cands_table_eq**: the pairs compared by the sweep when it reads the capacity table filled as coded are the
+    pairs compared on list bins (same pairs, same order). -/
+theorem cands_table_eq (S : Sys) (cutoff : ℚ) : candsA srcBinParams S cutoff = cands S cutoff := by
+  obtain ⟨s, hs⟩ := src_bins_sound
+  exact candsOfA_eq srcBinParams s hs _ _
+
+/-- **nlistFull_complete**: the whole of `nlist` with both capacity tables as coded (bin table growing from
+    `maxatomsperbin = 40`, per-atom rows growing from `initialsize` by `deltasize ≥ 1`): for atoms inside the cell
+    and `cutoff > 0`, `NeighborList[i]` is the specification and `coord[i]` its length. -/
+theorem nlistFull_complete (junk : Nat → Nat → Nat) (init delta : Nat) (hd : 1 ≤ delta) (S : Sys) (cutoff : ℚ)
+    (hc : 0 < cutoff) (hin : ∀ i, i < S.natoms → InsideCell S (S.posOf i)) (i : Nat) (hi : i < S.natoms) :
+    absRow ((nlistFull srcBinParams junk init delta S cutoff).rows.getD i []) = nlistSpec S cutoff i ∧
+    coordOf ((nlistFull srcBinParams junk init delta S cutoff).rows.getD i []) = (nlistSpec S cutoff i).length := by
+  have e : nlistFull srcBinParams junk init delta S cutoff = nlistA junk init delta S cutoff := by
+    unfold nlistFull nlistA
+    rw [cands_table_eq]
+  rw [e]
+  exact nlistA_complete junk init delta hd S cutoff hc hin i hi
+
+/-- **nbr_growth_as_modelled**: the growth block of the per-atom array as it stands in nlist.pyx (generated) is
+    the one `insertPairA` / `growRows` / `initA` implement (for which `storage_refines` is proved): start width
+    `initialsize + 1`, trigger "one of the two incremented coordination numbers exceeds `maxneighbors`", new width
+    `maxneighbors + deltasize + 1`, columns `0 .. maxneighbors` copied, `maxneighbors += deltasize`. -/
+theorem nbr_growth_as_modelled (init cu cv m d : Nat) :
+    Gen.nbrInit init = init ∧ Gen.nbrInitWidth m = m + 1 ∧
+    Gen.nbrTrigger (cu + 1) (cv + 1) m = (decide (m < cu + 1) || decide (m < cv + 1)) ∧
+    Gen.nbrNewWidth m d = m + 1 + d ∧ Gen.nbrCopyCols m = m + 1 ∧ Gen.nbrGrow m d = m + d := by
+  refine ⟨rfl, rfl, rfl, ?_, rfl, rfl⟩
+  simp only [Gen.nbrNewWidth]; omega
+
+/-! ### object level: no memory between calls -/
+
+theorem finalState_query (S : Sys) (c : ℚ) (ops : List Op) :
+    finalState S (Op.query c :: ops) = finalState S ops := rfl
+
+/-- **answers_fresh**: whatever was done to the system before (moves, new boxes, new periodicity, earlier
+    neighbor-list calls with any cutoff), the answer to a call is the neighbor list of the state the system has at
+    that moment; earlier answers are not altered by appending the call. -/
+theorem answers_fresh (S : Sys) (pre : List Op) (c : ℚ) :
+    answers S (pre ++ [Op.query c]) = answers S pre ++ [nlistL (finalState S pre) c] := by
+  induction pre generalizing S with
+  | nil => simp [answers, finalState]
+  | cons op pre ih =>
+    cases op with
+    | query c' => simp only [List.cons_append, answers, finalState_query, ih, List.cons_append]
+    | setPos i p => simp only [List.cons_append, answers, ih]; rfl
+    | setAll ps => simp only [List.cons_append, answers, ih]; rfl
+    | setBox v o => simp only [List.cons_append, answers, ih]; rfl
+    | setPbc a b c' => simp only [List.cons_append, answers, ih]; rfl
+
+/-- **answers_history_independent**: two histories that lead to the same state get the same answer. -/
+theorem answers_history_independent (S S' : Sys) (pre pre' : List Op) (c : ℚ)
+    (h : finalState S pre = finalState S' pre') :
+    (answers S (pre ++ [Op.query c])).getLast? = (answers S' (pre' ++ [Op.query c])).getLast? := by
+  rw [answers_fresh, answers_fresh, h]
+  simp
+
+/-- **answers_complete**: if after the operations all atoms lie inside the (current) cell, the answer to the call
+    is the specification evaluated on the current state. -/
+theorem answers_complete (S : Sys) (pre : List Op) (c : ℚ) (hc : 0 < c)
+    (hin : ∀ i, i < (finalState S pre).natoms → InsideCell (finalState S pre) ((finalState S pre).posOf i)) :
+    ∃ rows, (answers S (pre ++ [Op.query c])).getLast? = some rows ∧
+      ∀ i, i < (finalState S pre).natoms → rowOf rows i = nlistSpec (finalState S pre) c i := by
+  refine ⟨nlistL (finalState S pre) c, by rw [answers_fresh]; simp, fun i hi => ?_⟩
+  exact alg_complete _ c hc hin i hi
+
+/-- a move between two calls changes the second answer: cubic cell of side 4, atom 1 moved from x = 7/2 (image
+    distance 1 from atom 0) to x = 2 (distance 3/2, not below the cutoff 3/2). -/
+example : answers exSys [.query (3 / 2), .setPos 1 ⟨2, 1/2, 1/2⟩, .query (3 / 2)] = [[[1], [0]], [[], []]] := by
+  decide +kernel
 
 /-! ### text round trip -/
 
